@@ -7,7 +7,7 @@ TOL = (1e-6, 1e-9)
 BOUNDS = {
     "quick": "algebra: all 6-tuples (symbolic), all points; strings: every list of <=2 transform functions over 11 names x legal arities "
              "x angle unit {none,deg,grad,rad,turn} (first function) x length unit {none,px,pt,pc,in} on translate; translate/translateX/translateY with units in, pt, pc before and after matrix, rotate, translate, scale, skewX "
-             "and next to each other; separator styles and letter case on single functions",
+             "and next to each other; separator styles and letter case on single functions; upper-case spellings of angle and length units as well as of function names",
     "thorough": "as quick with lists of <=3 functions and units on every function",
 }
 OUTSIDE = ["transform lists longer than the bound", "numeric spellings (shared float pattern, see C01-lex)", "tan at its poles (skew by 90deg)",
@@ -97,10 +97,10 @@ def h_string(ctx, funcs, sep=", ", case="spec", fsep=" "):
             v = ctx.real("v%d" % k, -VAR, VAR)
             k += 1
             if kind == "a":
-                texts.append("%s%s" % (v, aunit))
+                texts.append("%s%s" % (v, aunit.upper() if case == "upper" else aunit))
                 vals.append(v * ctx.num(ANGLE_UNITS[aunit]))
             elif kind == "l":
-                texts.append("%s%s" % (v, lunit))
+                texts.append("%s%s" % (v, lunit.upper() if case == "upper" else lunit))
                 fac = LEN_UNITS[lunit]
                 vals.append(v * ppi if fac is None else v * ctx.num(fac))
             else:
@@ -336,6 +336,12 @@ def harnesses(tier):
         for f1 in plain:
             hs.append({"name": "string/2/%s%d%s%s+%s%d" % (f0[0], len(f0[1]), f0[2], f0[3], f1[0], len(f1[1])), "fn": "h_string",
                        "params": {"funcs": [f0, f1]}})
+    # upper-case spellings of the units as well as of the function names ("any letter case")
+    for au in ("deg", "grad", "rad", "turn"):
+        for fn_ in ("rotate", "skewx"):
+            hs.append({"name": "string/upper_units/%s/%s" % (fn_, au), "fn": "h_string", "params": {"funcs": [[fn_, ["a"], au, ""]], "case": "upper"}})
+    for lu in ("px", "pt", "pc", "in"):
+        hs.append({"name": "string/upper_units/translate/%s" % lu, "fn": "h_string", "params": {"funcs": [["translate", ["l", "l"], "", lu]], "case": "upper"}})
     # lengths with units anywhere in the list: before and after a function they do not commute with, and next to each other
     allv = _func_variants("thorough", 0)
     unitf = [f for f in allv if f[3] in ("in", "pt", "pc") and f[0] in ("translate", "translatex", "translatey") and (tier == "thorough" or (f[0], f[3], len(f[1])) in
